@@ -131,6 +131,7 @@ var c04Base = []string{
 	`a{% include "` + c04FailName + `" %}b`,                             // the error raised inside the included file names the INCLUDING template's path and line
 	`R{% include "` + c04SelfName + `" %}`,                              // 60 nested includes per render
 	"{{ site }}|{{ site.page.title }}|{{ site.list }}|{{ m }}|{{ dl }}", // whole containers holding (pointer) Drops are printed
+	`{{ x }}<{% include "` + c04FailName + `" %}>`,                      // something is evaluated BEFORE the include: a render can be parked between its start and its include
 	// thorough
 	"{% assign l = l | reverse %}{% for i in l %}{{ i }}{% endfor %}{% assign x = nil %}{{ x }}",
 	"{% for x in l %}{{ x }}{% endfor %}{{ x }}{{ forloop }}",
@@ -162,7 +163,7 @@ type c04Scenario struct {
 }
 
 func c04Scenarios(tier string) []c04Scenario {
-	nT := 15
+	nT := 16
 	if tier == "thorough" {
 		nT = len(c04Base)
 	}
@@ -308,7 +309,7 @@ func c04Solo(nT int, op c04Op) string {
 
 func c04Families(tier string) []explore.Family {
 	scen := c04Scenarios(tier)
-	nT := 15
+	nT := 16
 	bound2, bound3 := 2, 1
 	maxExec := 200000
 	if tier == "thorough" {
